@@ -154,8 +154,11 @@ func FindPathFromModel(path string, rwPaths ReadWritePathMap, exact bool) (bool,
 		// Find a short path
 		if exact && pathNoIndices == searchPathNoIndices {
 			return false, &modelElem, nil
-		} else if !exact && strings.HasPrefix(pathNoIndices, searchPathNoIndices) {
-			return false, &modelElem, nil // returns the first thing it finds that matches the prefix
+		} else if !exact && (pathNoIndices == searchPathNoIndices ||
+			strings.HasPrefix(pathNoIndices, strings.TrimSuffix(searchPathNoIndices, "/")+"/")) {
+			// the searched path is the model path or one of its ancestors (whole path elements: /sys/su is not
+			// an ancestor of /sys/sub); returns the first such model path it finds
+			return false, &modelElem, nil
 		}
 	}
 
